@@ -1,5 +1,58 @@
 import ZoektModel.Basic.Proto
+import ZoektModel.C27.Spec
+import ZoektModel.C27.Wire
 namespace ZoektModel.C27
-/-- stub: no model driver for C27 yet -/
-def main : IO Unit := ZoektModel.Proto.runLines (fun _ => ZoektModel.Proto.badCase "no model driver for C27")
+open ZoektModel ZoektModel.Proto ZoektModel.Regex ZoektModel.Regex.Wire
+
+def stripPrefix? (p s : String) : Option String :=
+  if s.startsWith p then some (s.drop p.length).toString else none
+
+/-- impl output of a `fa` case: `o=<spans> p=<spans> z=<spans>` -/
+def parseFaImpl (s : String) : Option (List (Nat × Nat) × List (Nat × Nat) × List (Nat × Nat)) :=
+  match fields s with
+  | [a, b, c] => do
+    let o ← parseSpans (← stripPrefix? "o=" a)
+    let p ← parseSpans (← stripPrefix? "p=" b)
+    let z ← parseSpans (← stripPrefix? "z=" c)
+    pure (o, p, z)
+  | _ => none
+
+/--
+ops
+  `print <tree> <np>`            → hex of the UTF-8 bytes of `RegexpString` (np = non-printable runes among those printed)
+  `uncap <tree>`                 → `<tree of uncapture> hc=<hasCapture>`
+  `simp <tree>`                  → `<tree of Simplify>`
+  `wf <tree>`                    → `print=<0|1> rep=<0|1>`: the tree has the shape the theorems assume of parser output
+  `fa <tree> <orbits> <subject>` → spec only: the three span lists of the implementation must be admissible for `tree`
+-/
+def handle (line : String) : String :=
+  let (inp, impl) := splitCase line
+  match fields inp with
+  | ["print", t, np] =>
+    match parseTree t, parseNats np with
+    | some r, some np =>
+      answer (bytesToHex (regexpString (fun c => !np.contains c) r).toUTF8.toList)
+    | _, _ => badCase "print fields"
+  | ["uncap", t] =>
+    match parseTree t with
+    | some r => answer s!"{showTree (uncapture r)} hc={showBit (hasCapture r)}"
+    | none => badCase "uncap tree"
+  | ["simp", t] =>
+    match parseTree t with
+    | some r => answer (showTree (simplify r))
+    | none => badCase "simp tree"
+  | ["wf", t] =>
+    match parseTree t with
+    | some r => answer s!"print={showBit (wfPrintB r)} rep={showBit (wfRepB r)}"
+    | none => badCase "wf tree"
+  | ["fa", t, orb, subj] =>
+    match parseTree t, parseOrbits orb, parseNats subj, parseFaImpl impl with
+    | some r, some tab, some s, some (o, p, z) =>
+      match checkP (envOf tab) s.toArray r o p z with
+      | none => answer impl
+      | some key => specFail impl key
+    | _, _, _, _ => badCase "fa fields"
+  | _ => badCase "op"
+
+def main : IO Unit := runLines handle
 end ZoektModel.C27
